@@ -489,6 +489,74 @@ pub fn main(args: &[String]) {
             "year_stride_away_from_edges": ystride}));
     }
 
+    if what == "pairs" || what == "all" {
+        // History independence of the calendar conversions: the specification makes every reading and every
+        // construction a function of its arguments alone.  Calendar landmarks (the first of every month over a span of
+        // years that contains the usual epochs: 1 BC-03-01, 0001-01-01, 1601-01-01, 1970-01-01, 2000-03-01) are read and
+        // constructed in every ordered pair (a, b) on one thread; the second result must be what the table says for b,
+        // whatever was converted just before.
+        let (y_lo, y_hi): (i64, i64) = if thorough { (-405, 2805) } else { (-5, 2400) };
+        let mut marks: Vec<(i64, Civil)> = Vec::new();
+        for y in y_lo..=y_hi {
+            if y == 0 {
+                continue;
+            }
+            for m in 1u32..=12 {
+                let dn = o.dn_of(y, m, 1).unwrap();
+                marks.push((dn, o.at(dn)));
+            }
+        }
+        let n = marks.len() as i64;
+        let marks = Arc::new(marks);
+        let mm = marks.clone();
+        let t = run_parallel(0, n - 1, 4, move |t, i| {
+            let (adn, a) = mm[i as usize];
+            let ats = ts_of(adn);
+            let cl = || "pair".to_string();
+            let mut bad_read = 0u64;
+            let mut bad_make = 0u64;
+            let mut first_read: Option<(i64, (i32, u32, u32))> = None;
+            let mut first_make: Option<(i64, i64)> = None;
+            for &(bdn, b) in mm.iter() {
+                let bts = ts_of(bdn);
+                let _ = Date::from_timestamp(ats).as_ymd();
+                let got = Date::from_timestamp(bts).as_ymd();
+                if got != (b.y, b.m, b.d) {
+                    bad_read += 1;
+                    first_read.get_or_insert((bdn, got));
+                }
+                let _ = Date::from_ymd(a.y, a.m, a.d);
+                let made = Date::from_ymd(b.y, b.m, b.d).map(|d| d.timestamp()).unwrap_or(i64::MIN);
+                if made != bts {
+                    bad_make += 1;
+                    first_make.get_or_insert((bdn, made));
+                }
+            }
+            let k = mm.len() as u64;
+            let c = t.clauses.entry("C01.pair_as_ymd").or_default();
+            c.checked += k - bad_read.min(1);
+            let c = t.clauses.entry("C01.pair_from_ymd").or_default();
+            c.checked += k - bad_make.min(1);
+            if let Some((bdn, got)) = first_read {
+                t.bad("C01.pair_as_ymd", cl(), || {
+                    let b = mm.iter().find(|x| x.0 == bdn).unwrap().1;
+                    json!({"first_read_dn": adn, "then_read_dn": bdn, "observed": [got.0, got.1, got.2],
+                           "expected": [b.y, b.m, b.d], "pairs_failing_for_this_first": bad_read})
+                });
+            }
+            if let Some((bdn, made)) = first_make {
+                t.bad("C01.pair_from_ymd", cl(), || {
+                    let b = mm.iter().find(|x| x.0 == bdn).unwrap().1;
+                    json!({"first_made": [a.y, a.m, a.d], "then_made": [b.y, b.m, b.d], "observed_ts": made,
+                           "expected_ts": ts_of(bdn), "pairs_failing_for_this_first": bad_make})
+                });
+            }
+        });
+        total.merge(t);
+        space.insert("pairs".into(), json!({"landmarks": n, "years": [y_lo, y_hi], "ordered_pairs": (n as u64) * (n as u64),
+            "what": "first of every month; read a then read b, make a then make b"}));
+    }
+
     let mut result = total.to_json();
     result["space"] = Value::Object(space);
     result["wall_s"] = json!(started.elapsed().as_secs_f64());
